@@ -581,29 +581,51 @@ func (x *runner) runHistory(h *History, count bool) (fails []failure) {
 					e.readded = true
 				}
 			}
-		case "get":
+		case "get", "getext", "getnc":
+			// the three read entry points: BlockGet, BlockGetExt (both BlockGetInternal(hash, false)) and the one-pass read
+			// BlockGetInternal(hash, true) of Chain.ParseTillBlock / Chain.UndoLastBlock / the rescan loop. The property's
+			// predicate is the same for all of them: the stored bytes come back.
 			line = "get " + hx
+			if op.Op == "getnc" {
+				line = "getnc " + hx
+			}
 			var bl []byte
 			var tr bool
 			var e error
-			call(func() { bl, tr, e = db.BlockGet(btc.NewUint256(hs[:])) })
+			fn := map[string]string{"get": "BlockGet", "getext": "BlockGetExt", "getnc": "BlockGetInternal(do_not_cache=true)"}[op.Op]
+			switch op.Op {
+			case "get":
+				call(func() { bl, tr, e = db.BlockGet(btc.NewUint256(hs[:])) })
+			default:
+				call(func() {
+					var cr *chain.BlckCachRec
+					if op.Op == "getext" {
+						cr, tr, e = db.BlockGetExt(btc.NewUint256(hs[:]))
+					} else {
+						cr, tr, e = db.BlockGetInternal(btc.NewUint256(hs[:]), true)
+					}
+					if cr != nil {
+						bl = cr.Data
+					}
+				})
+			}
 			if e != nil {
 				real = "err " + errKind(e) + " " + b01(tr)
-				hit("get:" + errKind(e))
+				hit(op.Op + ":" + errKind(e))
 			} else {
 				real = "data " + b01(tr) + " " + vlib.Hex(bl)
-				hit("get:ok")
+				hit(op.Op + ":ok")
 			}
 			if re := ref[hs]; re == nil {
 				if e == nil && !poked {
-					fail("prop", "get-unknown-returns-data", where+": BlockGet of a hash that was never added (or was marked invalid before it was written) returned data")
+					fail("prop", "get-unknown-returns-data", where+": "+fn+" of a hash that was never added (or was marked invalid before it was written) returned data")
 				}
 			} else if !re.tainted && !panicked {
 				if e != nil {
 					if !outOfRetention(op.B) {
-						fail("prop", "get-stored-fails", fmt.Sprintf("%s: BlockGet of stored block %x fails: %v", where, hs[:8], e))
+						fail("prop", "get-stored-fails", fmt.Sprintf("%s: "+fn+" of stored block %x fails: %v", where, hs[:8], e))
 					} else if withinKeep(op.B) {
-						fail("prop", "removed-within-retention", fmt.Sprintf("%s: BlockGet of stored block %x fails (%v): its data file was removed although it is within the configured retention (DataFilesKeep >= %d, highest data file %d)", where, hs[:8], e, minKeep, maxSeen))
+						fail("prop", "removed-within-retention", fmt.Sprintf("%s: "+fn+" of stored block %x fails (%v): its data file was removed although it is within the configured retention (DataFilesKeep >= %d, highest data file %d)", where, hs[:8], e, minKeep, maxSeen))
 					} else {
 						hit("get:out-of-retention")
 						hit("get:out-of-retention:" + errKind(e))
@@ -612,12 +634,12 @@ func (x *runner) runHistory(h *History, count bool) (fails []failure) {
 					if !bytes.Equal(bl, re.data) && outOfRetention(op.B) {
 						// the block's data file left the retention: an error is the answer the property allows; bytes that
 						// are not the stored block are not
-						fail("prop", "out-of-retention-read-returns-other-bytes", fmt.Sprintf("%s: BlockGet of %x, whose data file was removed (out of retention), returns %d bytes without error that are not the stored block (%d bytes): the data-file number was used again", where, hs[:8], len(bl), len(re.data)))
+						fail("prop", "out-of-retention-read-returns-other-bytes", fmt.Sprintf("%s: "+fn+" of %x, whose data file was removed (out of retention), returns %d bytes without error that are not the stored block (%d bytes): the data-file number was used again", where, hs[:8], len(bl), len(re.data)))
 					} else if !bytes.Equal(bl, re.data) {
-						fail("prop", "get-wrong-bytes", fmt.Sprintf("%s: BlockGet of %x returns %d bytes that differ from the %d stored", where, hs[:8], len(bl), len(re.data)))
+						fail("prop", "get-wrong-bytes", fmt.Sprintf("%s: "+fn+" of %x returns %d bytes that differ from the %d stored", where, hs[:8], len(bl), len(re.data)))
 					}
 					if tr != re.trusted {
-						fail("prop", "get-wrong-trusted", fmt.Sprintf("%s: BlockGet of %x returns trusted=%v, latest flag is %v", where, hs[:8], tr, re.trusted))
+						fail("prop", "get-wrong-trusted", fmt.Sprintf("%s: "+fn+" of %x returns trusted=%v, latest flag is %v", where, hs[:8], tr, re.trusted))
 					}
 				}
 			}
@@ -701,7 +723,8 @@ func (x *runner) runHistory(h *History, count bool) (fails []failure) {
 		// the oracle runs the durable-map specification next to the model: the model's own reply must satisfy the
 		// retention-aware claim (Props/C16.lean `store_refines_map`, proved for every history and option combination): a
 		// "violated" here means the oracle no longer runs the definitions the theorem is about
-		if op.Op == "get" || op.Op == "len" {
+		isGet := op.Op == "get" || op.Op == "getext" || op.Op == "getnc"
+		if isGet || op.Op == "len" {
 			if c := x.o.MustAsk("claim"); c != "ok" {
 				fail("tie", "model-violates-retention-claim", fmt.Sprintf("%s: the model's reply %q does not satisfy the durable-map claim within retention (%s)", where, short(model), c))
 			} else if count {
@@ -713,7 +736,7 @@ func (x *runner) runHistory(h *History, count bool) (fails []failure) {
 			if count {
 				hit("claimR:" + op.Op + ":" + ck)
 			}
-			if re := ref[hs]; op.Op == "get" && re != nil && !re.tainted && !poked && !panicked && !outOfRetention(op.B) {
+			if re := ref[hs]; isGet && re != nil && !re.tainted && !poked && !panicked && !outOfRetention(op.B) {
 				if ck != "data" {
 					fail("tie", "spec-claims-less-than-reference", fmt.Sprintf("%s: the reference map demands the stored bytes of %x, the Lean specification (claimR) claims %q", where, hs[:8], ck))
 				} else if count {
